@@ -97,6 +97,9 @@ class Ctx:
             rc, out = sh("go build -tags verif -o %s/harness ./cmd/harness" % BIN, cwd=GO, timeout=1200)
             if rc != 0:
                 return False, "building harness (with -tags verif) against /repo failed:\n" + out
+            rc, out = sh("go build -o %s/nilaway ./cmd/nilaway" % BIN, cwd=REPO, timeout=1200)
+            if rc != 0:
+                return False, "building cmd/nilaway failed:\n" + out
             if not os.path.exists(os.path.join(BIN, "modelrun")) or self._stale_modelrun():
                 ok, out = self.coq_make_nolock(["model/Engine.vo", "model/EngineSpec.vo"])
                 if not ok:
